@@ -5,6 +5,12 @@ ROOT = os.path.dirname(os.path.dirname(os.path.abspath(__file__)))
 CORE, BIN, PY3, BS, EXPR, CONT = 'construct/core.py', 'construct/lib/binary.py', 'construct/lib/py3compat.py', 'construct/lib/bitstream.py', 'construct/expr.py', 'construct/lib/containers.py'
 MUTANTS = [
     # id, property, file, old, new
+    ('lazy-relative-skip', 'C16', CORE, "        stream_seek(stream, offset + len, 0, path)\n        return execute", "        stream_seek(stream, len, 1, path)\n        return execute"),
+    ('lazy-thunk-no-restore', 'C16', CORE, "            obj = self.subcon._parsereport(stream, context, path)\n            stream_seek(stream, fallback, 0, path)\n            return obj", "            obj = self.subcon._parsereport(stream, context, path)\n            return obj"),
+    ('lazycontainer-no-restore', 'C16', CORE, "        parseret = self._struct.subcons[index]._parsereport(self._stream, self._context, self._path)\n        stream_seek(self._stream, fallback, 0, self._path)\n", "        parseret = self._struct.subcons[index]._parsereport(self._stream, self._context, self._path)\n"),
+    ('lazycontainer-cache-wrong-slot', 'C16', CORE, "        stream_seek(self._stream, fallback, 0, self._path)\n        self._values[index] = parseret\n        return parseret\n\n    def __len__(self):\n        return len(self._struct.subcons)", "        stream_seek(self._stream, fallback, 0, self._path)\n        self._values[index+1] = parseret\n        return parseret\n\n    def __len__(self):\n        return len(self._struct.subcons)"),
+    ('lazylist-negative-index', 'C16', CORE, "        if index < 0:\n            index += self._count\n        if index in self._values:", "        if index in self._values:"),
+    ('lazylist-wrong-offset', 'C16', CORE, "        stream_seek(self._stream, self._offsets[index], 0, self._path) # KeyError\n        parseret = self._subcon._parsereport", "        stream_seek(self._stream, self._offsets[index+1], 0, self._path) # KeyError\n        parseret = self._subcon._parsereport"),
     ('hex-decode-sizeof-leak', 'C12', CORE, "            try:\n                fmtstr = \"0%sX\" % (2 * self.subcon._sizeof(context, path))\n            except SizeofError:\n                fmtstr = \"X\"\n            return HexDisplayedInteger.new(obj, fmtstr)", "            return HexDisplayedInteger.new(obj, \"0%sX\" % (2 * self.subcon._sizeof(context, path)))"),
     ('optional-macro', 'C12', CORE, "    return Select(subcon, Pass)", "    return Select(Pass, subcon)"),
     ('int24ul-alias', 'C12', CORE, '    \"\"\"A 3-byte little-endian unsigned integer, as used in ancient file formats.\"\"\"\n    return BytesInteger(3, signed=False, swapped=True)', '    \"\"\"A 3-byte little-endian unsigned integer, as used in ancient file formats.\"\"\"\n    return BytesInteger(3, signed=False, swapped=False)'),
